@@ -54,6 +54,22 @@ def check_sql(sh, doc, db, origin, suite, parts, api=False, text=None):
             sh.count('class.table_with_index')
         if t['comments']:
             sh.count('class.table_with_comment_on')
+    if 'column' in parts:
+        # whitespace inside a type, a string default or an expression is part of the text: the tokenising reader squashes
+        # it, so the exact fragments are looked up in the raw script as well
+        for t in doc.tables:
+            for c in t.columns:
+                ty = expect_sql.type_text(doc, c.type) if c.type.kind == 'enum' else c.type.text
+                frag = f'"{c.name}" ' + ('.'.join(f'"{x}"' for x in expect_sql.qn(doc.enums[c.type.enum].schema, doc.enums[c.type.enum].name))
+                                         if c.type.kind == 'enum' else ty)
+                sh.count('obs.verbatim_fragments')
+                if frag not in sql:
+                    res.append(('column', 'column-text-not-verbatim', f'{frag!r} does not occur in the script'))
+                d = c.default
+                if d is not None and d.kind in ('str', 'expr') and d.value != '':
+                    f2 = f'DEFAULT ({d.value})' if d.kind == 'expr' else f'DEFAULT {d.value}'
+                    if f2 not in sql:
+                        res.append(('column', 'default-text-not-verbatim', f'{f2!r} does not occur in the script'))
     for part, klass, detail in res:
         if part in parts:
             sh.violation(part, f'{part}:{klass}', detail,
@@ -159,6 +175,16 @@ def run_shard(spec, tier, seed, budget_s):
             both_origins(sh, doc, f'{seed}-{i}-{k}', suite, PARTS)
             if k % 3 == 0:
                 edit_and_recheck(sh, doc, rng, f'{seed}-{i}-{k}', PARTS)
+            if k % 4 == 0:
+                # notes given as Note objects, one object shared by every owner with the same text
+                import copy
+                d3 = copy.deepcopy(doc)
+                shared = 'shared note text'
+                for t in d3.tables[:3]:
+                    t.note = shared
+                    if t.columns:
+                        t.columns[0].note = shared
+                check_sql(sh, d3, apibuild.build(d3, note_objects=True), 'api', 'sharednote', PARTS)
     for k2, v in reach.counts.items():
         if k2.startswith('renderer.sql'):
             sh.count('reach.' + k2, v)
